@@ -163,6 +163,11 @@ def main():
         if a.wf:
             bad = [k for k in info if (wfr.get(k) or '').startswith('wf=true') and not (adr.get(k) or '').startswith('balanced=true')]
             print(f'WFProgram programs that are not balanced: {len(bad)}')
+            bwf = [k for k in info if 'balancedWF=true' in (wfr.get(k) or '')]
+            viol = [k for k in bwf if not (adr.get(k) or '').startswith('balanced=true')]
+            print(f'C06_compile_balanced: WFBalanced programs: {len(bwf)}; of these NOT balanced on the implementation stream: {len(viol)}')
+            for k in viol[:a.show]:
+                print('    VIOLATION', repr(info[k][1]), adr.get(k))
             for k in bad[:a.show]:
                 print('   ', repr(info[k][1]), adr.get(k))
         unb = sorted((k for k in info if (adr.get(k) or '').startswith('balanced=false')), key=lambda k: len(info[k][1]))
